@@ -7,15 +7,15 @@ docs/src/language/commands/simple.md).
 
  0. Calib_WordSubst: worked examples of the manual and of cmdsub-p.sh / arith-p.sh / simple-p.sh hold for the
     oracle (ASSUMEs; a failure is a tool error).
- 1. Laws: TLC checks on every unit of the alphabet of Gen_WordSubst (x 8 shell states) that a quoted
+ 1. Laws: TLC checks on every unit of the alphabet of Gen_WordSubst (x 9 shell states) that a quoted
     substitution is one field, that exactly the trailing newlines go, that nothing leaks out of the subshell,
     that both backquote escapings denote the command of the $( ) form, the last-substitution status rule, the
     arithmetic laws, `$((x))` = `$(($x))`, and that the module is a conservative extension of Expand.tla.
     Ten negative configurations (named wrong variants of WordSubst.tla) must each be refuted by the law named.
- 2. spec -> impl: TLC enumerates words over the unit alphabet (45 command bodies in $( ) / tight $(( / two
+ 2. spec -> impl: TLC enumerates words over the unit alphabet (47 command bodies in $( ) / tight $(( / two
     backquote escapings, 48 arithmetic expressions, each also in double quotes and inside ${x-w} ${x=w} ${x#w},
     paired with the C01 units) and raw backquote texts, and prints per word the text and the prescribed outcome
-    for 10 contexts x 8 shell states; harness/g15 runs every case on the real shell (simulated OS) and compares
+    for 13 contexts x 9 shell states; harness/g15 runs every case on the real shell (simulated OS) and compares
     fields, the variables afterwards and `$?`.
  3. impl -> spec: seeded random words (deeper nesting, random bodies and arithmetic expressions, more states)
     are run and recorded; Trace_WordSubst judges every record (and checks the harness's rendering of the word).
@@ -57,8 +57,8 @@ EXPECTED_FEATURES = (
     + ["ar/uq", "ar/dq", "bqraw/uq", "bqraw/dq", "ar-holds-cs", "ar-holds-ar", "ar-holds-par", "nested-in-body",
        "in-${sw}/uq", "in-${sw}/dq", "in-${trim}/uq"]
     + [f"cmd/{c}" for c in ("put", "echo", "asg", "st", "exit", "sub")]
-    + [f"ctx/{c}/ok" for c in ("arg", "for", "assign", "asgseq", "export", "noname", "case", "pat", "redir", "here")]
-    + [f"ctx/{c}/err" for c in ("arg", "for", "assign", "asgseq", "export", "noname", "case", "pat")]
+    + [f"ctx/{c}/ok" for c in ("arg", "cmdname", "for", "assign", "asgseq", "asgcs", "export", "noname", "case", "pat", "redir", "here", "hereq")]
+    + [f"ctx/{c}/err" for c in ("arg", "for", "assign", "asgseq", "asgcs", "export", "noname", "case", "pat")]
     + ["fields=0", "fields=1", "fields=2", "fields=>2", "status/0", "status/n", "status/nz"])
 
 
@@ -95,14 +95,14 @@ def _negative(variant):
 
 
 def _laws(totals):
-    with ThreadPoolExecutor(max_workers=6) as ex:
-        fut = ex.submit(vlib.tlc, "Gen_WordSubst", "Gen_WordSubst_laws.cfg", None, 4, 900)
+    with ThreadPoolExecutor(max_workers=4) as ex:
+        fut = ex.submit(vlib.tlc, "Gen_WordSubst", "Gen_WordSubst_laws.cfg", None, 3, 900)
         negs = list(ex.map(_negative, sorted(NEGATIVE)))
         r = fut.result()
     vlib.tlc_must_pass(r, "laws (Gen_WordSubst_laws.cfg)")
     totals["states"] += r.distinct
     totals["transitions"] += r.generated
-    vlib.log(f"[laws] {r.distinct} units/states: 10 laws hold on every unit of the alphabet x 8 shell states ({r.wall:.1f}s)")
+    vlib.log(f"[laws] {r.distinct} units/states: 10 laws hold on every unit of the alphabet x 9 shell states ({r.wall:.1f}s)")
     refuted = {}
     for variant, prop, rn in negs:
         if rn.ok or prop != NEGATIVE[variant]:
@@ -125,7 +125,7 @@ def _trace(trace, what, timeout, totals):
         p = f"{trace}.shard"
         with open(p, "w") as f:
             f.writelines(part)
-        r = vlib.tlc("Trace_WordSubst", "Trace_WordSubst.cfg", workers=8, timeout=timeout, env={"TRACE": os.path.abspath(p)})
+        r = vlib.tlc("Trace_WordSubst", "Trace_WordSubst.cfg", workers=4, timeout=timeout, env={"TRACE": os.path.abspath(p)})
         os.remove(p)
         vlib.tlc_must_pass(r, f"trace validation ({what})")
         if r.distinct != 2 * len(part) - 1:
@@ -152,20 +152,35 @@ def run(tier):
     vlib.log(f"[calib] worked examples of command_substitution.md / arithmetic.md / simple.md and of cmdsub-p.sh / "
              f"arith-p.sh / simple-p.sh hold for the oracle ({r.wall:.1f}s)")
 
-    # 1. laws and negative configurations
-    law_states, refuted = _laws(totals)
+    # stages 1-3 overlap (each is dominated by one JVM or by the harness)
+    def stage_enum():
+        gen = os.path.join(wd, "gen.ndjson")
+        r = vlib.tlc("Gen_WordSubst", cfg["gen"], workers=8, timeout=cfg["timeout"], env={"SEED": str(vlib.seed())}, json_out=gen)
+        vlib.tlc_must_pass(r, f"enumeration {cfg['gen']}")
+        nlines = vlib.count_lines(gen)
+        mism = os.path.join(wd, "mismatch.ndjson")
+        _, out, _ = vlib.run_harness(PKG, ["replay", "--in", gen, "--out", mism, "--threads", "8"], timeout=cfg["timeout"])
+        os.remove(gen)
+        return r, nlines, _summary(out), mism
+
+    def stage_random():
+        trace = os.path.join(wd, "random.ndjson")
+        vlib.run_harness(PKG, ["random", "--n", cfg["nrandom"], "--out", trace, "--threads", "4"], timeout=cfg["timeout"])
+        t = {"states": 0, "transitions": 0}
+        return trace, _trace(trace, "random words", cfg["timeout"], t), t
+
+    with ThreadPoolExecutor(max_workers=3) as ex:
+        f_laws = ex.submit(_laws, totals)
+        f_enum = ex.submit(stage_enum)
+        f_rand = ex.submit(stage_random)
+        law_states, refuted = f_laws.result()          # 1. laws and negative configurations
+        r, nlines, s, mism = f_enum.result()
+        trace, (n, res, wall), t_rand = f_rand.result()
 
     # 2. spec -> impl
-    gen = os.path.join(wd, "gen.ndjson")
-    r = vlib.tlc("Gen_WordSubst", cfg["gen"], workers=8, timeout=cfg["timeout"], env={"SEED": str(vlib.seed())}, json_out=gen)
-    vlib.tlc_must_pass(r, f"enumeration {cfg['gen']}")
-    totals["states"] += r.distinct
-    totals["transitions"] += r.generated
-    nlines = vlib.count_lines(gen)
+    totals["states"] += r.distinct + t_rand["states"]
+    totals["transitions"] += r.generated + t_rand["transitions"]
     vlib.log(f"[tlc] {cfg['gen']}: {r.distinct} words enumerated, {nlines - 1} printed ({r.wall:.1f}s)")
-    mism = os.path.join(wd, "mismatch.ndjson")
-    _, out, _ = vlib.run_harness(PKG, ["replay", "--in", gen, "--out", mism, "--threads", "8"], timeout=cfg["timeout"])
-    s = _summary(out)
     if s["words"] != nlines - 1:
         raise vlib.ToolError(f"replay covered {s['words']} of {nlines - 1} words")
     for rec in vlib.read_ndjson(mism):
@@ -176,16 +191,12 @@ def run(tier):
     vlib.log(f"[p4->] {s['cases']} (word, context, state) cases of {s['words']} words replayed in {s['runs']} shell runs "
              f"({s['expected_errors']} with a prescribed error, {s['skipped']} left open by the specification): "
              f"{s['mismatches']} mismatches; per context {s['per_ctx']}")
-    os.remove(gen)
     features = s["features"]
     not_exercised = [t for t in EXPECTED_FEATURES if not features.get(t)]
     if not_exercised:
         vlib.log(f"NOTE: constructs / outcome classes not exercised by the enumeration: {not_exercised}")
 
     # 3. impl -> spec
-    trace = os.path.join(wd, "random.ndjson")
-    vlib.run_harness(PKG, ["random", "--n", cfg["nrandom"], "--out", trace, "--threads", "8"], timeout=cfg["timeout"])
-    n, res, wall = _trace(trace, "random words", cfg["timeout"], totals)
     skipped = rej = 0
     for rec, j in res:
         if j["v"] == "skip":
@@ -223,13 +234,13 @@ def run(tier):
         "rule": "distinct (word AST, context, shell state) cases enumerated by TLC with a prescribed outcome and executed "
                 "on the real shell; random recorded cases counted separately",
         "exhaustive": tier == "thorough",
-        "exhaustive_over": ("every unit of the alphabet of Gen_WordSubst (45 bodies x forms, 48 expressions, quoted and "
-                            "nested variants; 364 units) x 10 contexts x 8 states; every pair new unit x C01 core unit in "
+        "exhaustive_over": ("every unit of the alphabet of Gen_WordSubst (47 bodies x forms, 48 expressions, quoted and "
+                            "nested variants; 367 units) x 13 contexts x 9 states; every pair new unit x C01 core unit in "
                             "both orders; "
                             + ("a 1/5 sample of the pairs of two new units, all with the full fan of contexts and states; a "
                                "1/60 sample of the alternating triples; raw backquote texts of <= 4 tokens"
                                if tier == "thorough" else
-                               "a 1/40 sample of the pairs of two new units (pairs with a reduced fan: 5 contexts x 3 "
+                               "a 1/40 sample of the pairs of two new units (pairs with a reduced fan: 7 contexts x 3 "
                                "states); raw backquote texts of <= 3 tokens")),
         "bounds": {"enumeration": cfg["gen"], "random_records": cfg["nrandom"], "random_nesting_depth": "<= 3"},
         "law_states": law_states,
